@@ -266,6 +266,14 @@ func c10Program(h wire.Term, placement int, op int, nameIdx uint64) (tables [][]
 		e2 := wire.Expr{{Tag: wire.OValue, Val: h}, {Tag: wire.OValue, Val: vx}, {Tag: wire.OBinary, Kind: uint64(op)}}
 		auth.Rules = append(auth.Rules, wire.Rule{Head: pred(Q, vx), Body: []wire.Pred{pred(P, vx)}, Exprs: []wire.Expr{e1}})
 		later.Checks = append(later.Checks, query([]wire.Pred{pred(P, vx)}, e2))
+		if h.Tag == wire.TSet && len(h.Set) > 0 {
+			// the same operator between the hostile set and a one-element set taken from it
+			// (operands of different sizes that share members: duplicates matter here)
+			sub := wire.Term{Tag: wire.TSet, Set: []wire.Term{h.Set[0]}}
+			e3 := wire.Expr{{Tag: wire.OValue, Val: h}, {Tag: wire.OValue, Val: sub}, {Tag: wire.OBinary, Kind: uint64(op)}}
+			e4 := wire.Expr{{Tag: wire.OValue, Val: sub}, {Tag: wire.OValue, Val: h}, {Tag: wire.OBinary, Kind: uint64(op)}}
+			later.Checks = append(later.Checks, query([]wire.Pred{pred(P, vx)}, e3), query([]wire.Pred{pred(P, vx)}, e4))
+		}
 		blocks = append(blocks, later)
 	case 7:
 		what = fmt.Sprintf("operand of unary operator %d", op%3)
@@ -275,6 +283,42 @@ func c10Program(h wire.Term, placement int, op int, nameIdx uint64) (tables [][]
 		auth.Checks = append(auth.Checks, query([]wire.Pred{pred(P, vx)}, e1), query(nil, e2))
 	}
 	return nil, blocks, what
+}
+
+// c10SetAlgebra enumerates set-against-set expressions over operands with repeated and shared
+// members (the wire format does not forbid repeats): one expression per token, so that an
+// error in one expression cannot hide another. k selects (left, right, operator).
+var c10SetOps = []uint64{4, 5, 15, 16} // equal, contains, intersection, union
+
+func c10SetPool() []wire.Term {
+	set := func(es ...wire.Term) wire.Term { return wire.Term{Tag: wire.TSet, Set: es} }
+	i := func(v int64) wire.Term { return wire.Term{Tag: wire.TInteger, I: v} }
+	y := func(v byte) wire.Term { return wire.Term{Tag: wire.TBytes, B: []byte{v}} }
+	st := func(v uint64) wire.Term { return wire.Term{Tag: wire.TString, U: v} }
+	return []wire.Term{
+		set(i(1)), set(i(2)), set(i(1), i(1)), set(i(1), i(2)), set(i(1), i(1), i(2)), set(i(2), i(1), i(1)), set(i(1), i(2), i(3), i(1)),
+		set(y(1)), set(y(1), y(1)), set(y(1), y(2), y(1)),
+		set(st(0)), set(st(0), st(0)), set(st(0), st(1), st(0)),
+	}
+}
+
+func c10NumSetAlgebra() int { n := len(c10SetPool()); return n * n * len(c10SetOps) }
+
+func c10SetAlgebra(k int) (blocks []*wire.Block, what string) {
+	pool := c10SetPool()
+	n := len(pool)
+	a, b, op := pool[k%n], pool[k/n%n], c10SetOps[k/n/n%len(c10SetOps)]
+	v3 := uint32(3)
+	ctx := ""
+	e := wire.Expr{{Tag: wire.OValue, Val: a}, {Tag: wire.OValue, Val: b}, {Tag: wire.OBinary, Kind: op}}
+	if op >= 15 {
+		// a set result: ask for its length so that the check has a boolean to decide on
+		e = append(e, wire.Op{Tag: wire.OUnary, Kind: 2}, wire.Op{Tag: wire.OValue, Val: wire.Term{Tag: wire.TInteger, I: 0}}, wire.Op{Tag: wire.OBinary, Kind: 3})
+	}
+	auth := &wire.Block{Symbols: []string{"p"}, Context: &ctx, Version: &v3}
+	auth.Facts = append(auth.Facts, wire.Pred{Name: 1024, Terms: []wire.Term{a}})
+	auth.Checks = append(auth.Checks, wire.Check{{Head: wire.Pred{Name: 27}, Exprs: []wire.Expr{e}}})
+	return []*wire.Block{auth}, fmt.Sprintf("set algebra: %s op%d %s", a.String(), op, b.String())
 }
 
 // c10Structural returns programs whose hostility is structural rather than a single value.
@@ -601,6 +645,11 @@ func c10Run(c *core.C) {
 	switch mode {
 	case 0, 1:
 		// hostile values x placements, validly signed by an attacker root
+		for j := 0; j < 4; j++ {
+			blocks, what := c10SetAlgebra((c.Idx*4 + j) % c10NumSetAlgebra())
+			env, pub := c10Sign(c, blocks)
+			run("hostile-value", what, env.Encode(), pub, true)
+		}
 		for rep := 0; rep < 12; rep++ {
 			h := hostile[r.Intn(len(hostile))]
 			placement := r.Intn(8)
